@@ -45,7 +45,15 @@ HammerSpecs ==
      [name |-> "smove", chunk |-> 4, progs |-> [c \in {1, 2, 3} |-> Rep(IF c = 1 THEN C("SMOVE", <<ks, ks2, x>>) ELSE IF c = 2 THEN C("SMOVE", <<ks2, ks, x>>) ELSE C("SUNION", <<ks, ks2>>), 60)]],
      [name |-> "multi-exec", chunk |-> 4, progs |-> [c \in {1, 2, 3} |-> IF c = 3 THEN Rep(C("MGET", <<ka, kb>>), 48)
                                           ELSE [j \in 1..48 |-> CASE j % 4 = 1 -> C("MULTI", <<>>) [] j % 4 = 2 -> C("SET", <<ka, N(c)>>)
-                                                                   [] j % 4 = 3 -> C("SET", <<kb, N(c)>>) [] OTHER -> C("EXEC", <<>>)]]] >>
+                                                                   [] j % 4 = 3 -> C("SET", <<kb, N(c)>>) [] OTHER -> C("EXEC", <<>>)]]],
+     \* two transactions of four commands each running into each other, and an EXEC against CLIENT INFO (both take
+     \* the exclusive lock of the data store)
+     [name |-> "multi-exec-incr", chunk |-> 6, progs |-> [c \in {1, 2, 3} |-> IF c = 3 THEN Rep(C("MGET", <<ka, kb>>), 36)
+                                          ELSE [j \in 1..72 |-> CASE j % 6 = 1 -> C("MULTI", <<>>) [] j % 6 = 2 -> C("INCR", <<ka>>) [] j % 6 = 3 -> C("INCR", <<kb>>)
+                                                                   [] j % 6 = 4 -> C("INCR", <<ka>>) [] j % 6 = 5 -> C("INCR", <<kb>>) [] OTHER -> C("EXEC", <<>>)]]],
+     [name |-> "multi-exec-clientinfo", chunk |-> 4, progs |-> [c \in {1, 2} |-> IF c = 2 THEN Rep(C("CLIENT", <<W("INFO")>>), 40)
+                                          ELSE [j \in 1..48 |-> CASE j % 4 = 1 -> C("MULTI", <<>>) [] j % 4 = 2 -> C("INCR", <<ka>>)
+                                                                   [] j % 4 = 3 -> C("INCR", <<kb>>) [] OTHER -> C("EXEC", <<>>)]]] >>
 HammerInit == StateFullJ(WithDb0(InitServer({1, 2, 3, 4}),
                   (ka :> VStr(N(0), 0)) @@ (kb :> VStr(N(0), 0)) @@ (kl :> VList(<<x, y>>, 0)) @@ (kh :> VHash((f :> N(0)), 0)) @@ (ks :> VSet({x, y}, 0))))
 ASSUME PrintT(ToJson([hammer |-> HammerSpecs, pre |-> HammerInit]))
